@@ -1,7 +1,6 @@
 package main
 
 import (
-	"go/token"
 	"strings"
 
 	"golang.org/x/tools/go/ssa"
@@ -201,49 +200,26 @@ func c02EmbeddedLeaf(c *Ctx, rule string) {
 	}
 	ok := false
 	detail := ""
-	for _, h := range heldCondVals(leafCall) {
-		bo, isBO := h.Cond.(*ssa.BinOp)
-		if !isBO {
-			continue
-		}
-		x, y, op := bo.X, bo.Y, bo.Op
-		if !h.Pol {
-			switch op {
-			case token.GTR:
-				op = token.LEQ
-			case token.LSS:
-				op = token.GEQ
-			case token.LEQ:
-				op = token.GTR
-			case token.GEQ:
-				op = token.LSS
-			case token.EQL:
-				op = token.NEQ
-			case token.NEQ:
-				op = token.EQL
-			}
-		}
-		isLen := func(v ssa.Value) bool { return vstr(v) == "builtin.len(param:value)" }
-		switch {
-		case isLen(x) && (op == token.GTR || op == token.NEQ) && sameValue(y, low, 0):
-			ok = true
-		case isLen(y) && (op == token.LSS || op == token.NEQ) && sameValue(x, low, 0):
-			ok = true
-		case isLen(x) || isLen(y):
-			detail = "guard found: " + vstr(bo)
-		}
+	L := vstr(low)
+	accept := map[string]bool{
+		"builtin.len(param:value) > " + L:  true,
+		L + " < builtin.len(param:value)":  true,
+		"builtin.len(param:value) != " + L: true,
+		L + " != builtin.len(param:value)": true,
 	}
-	// alternative spelling: len(value[pos:]) > 0
-	if !ok {
-		for _, h := range heldCondVals(leafCall) {
-			if bo, isBO := h.Cond.(*ssa.BinOp); isBO && h.Pol && (bo.Op == token.GTR || bo.Op == token.NEQ) {
-				if k, isK := constInt(bo.Y); isK && k == 0 && strings.HasPrefix(vstr(bo.X), "builtin.len(param:value[") {
-					if call, isCall := bo.X.(*ssa.Call); isCall && len(call.Call.Args) == 1 {
-						if sl, isSl := call.Call.Args[0].(*ssa.Slice); isSl && sl.Low != nil && sameValue(sl.Low, low, 0) {
-							ok = true
-						}
-					}
-				}
+	// alternative spelling: len(value[pos:]) > 0 / != 0
+	accept["builtin.len(param:value["+L+":]) > 0"] = true
+	accept["builtin.len(param:value["+L+":]) != 0"] = true
+	for _, h := range heldCondVals(leafCall) {
+		cands := []string{normCond(h.Cond, h.Pol)}
+		if s2, isInl := normCondInlined(h.Cond, h.Pol); isInl {
+			cands = append(cands, s2) // the test may live in a predicate helper
+		}
+		for _, s := range cands {
+			if accept[s] {
+				ok = true
+			} else if strings.Contains(s, "builtin.len(param:value") {
+				detail = "guard found: " + s
 			}
 		}
 	}
